@@ -11,7 +11,7 @@ from rv import graphlib as GL
 PROJECTS = ["a", "b", "c", "d", "e"]
 SPELL = {"a": ["a", "A"], "b": ["b", "B"], "c": ["c", "C"], "d": ["d", "D"], "e": ["e", "E"],
          "f-g": ["f-g", "F_G", "f.g"]}
-SHAPES = ["dag-free", "dag-free", "dag-conflict", "dag-conflict", "cyclic", "self", "extras", "extras"]
+SHAPES = ["dag-free", "dag-free", "dag-conflict", "dag-conflict", "cyclic", "self", "extras", "extras", "abandon", "late-extra-cycle"]
 
 
 def gen_spec(rng, p=0.45):
@@ -24,7 +24,35 @@ def gen_spec(rng, p=0.45):
     return op + v
 
 
+def gen_template(rng, shape):
+    """two hand-shaped families the random shapes almost never produce:
+    abandon          - a walk-back throws an intermediate distribution out while its dependencies are still being iterated,
+                       and a survivor requires one of those dependencies too;
+    late-extra-cycle - a project is asked for an extra by something that sits below it in the walk (a cycle through an extra)"""
+    names = list(PROJECTS + ["f-g"])
+    rng.shuffle(names)
+    lo, hi = sorted(rng.sample(GL.VERS, 2), key=GL.V)
+    v = lambda: rng.choice(GL.VERS)
+    if shape == "abandon":
+        P, C, N, D1, D2, Z = names[:6]
+        U = {P: {hi: [C + ">=" + hi, N], lo: [C]}, C: {lo: [], hi: []}, N: {v(): [D1, D2]}, D1: {v(): [C + "<" + hi]},
+             D2: {v(): []}, Z: {v(): [D2]}}
+        inputs = [[P, Z]] if rng.random() < 0.7 else [[P], [Z]]
+    else:
+        A, B, S, T = names[:4]
+        ex = rng.choice(["x", "y"])
+        U = {A: {v(): [B, '%s ; extra == "%s"' % (S, ex)]}, B: {v(): ["%s[%s]" % (A, ex)]}, S: {v(): [] if rng.random() < 0.5 else [T]}, T: {v(): []}}
+        inputs = [[A]] if rng.random() < 0.6 else [[B]]
+    # a little noise: an extra version here and there
+    for n in list(U):
+        if rng.random() < 0.2:
+            U[n].setdefault(v(), [])
+    return {"shape": shape, "universe": U, "inputs": inputs, "constraints": [], "remove_constraints": False}
+
+
 def gen_universe(rng, shape):
+    if shape in ("abandon", "late-extra-cycle"):
+        return gen_template(rng, shape)
     names = (PROJECTS + ["f-g"])[: rng.randint(2, 6)]
     extras_p = 0.35 if shape == "extras" else (0.12 if shape in ("cyclic", "self") else 0.1)
     conflict_p = 0.0 if shape == "dag-free" else 0.3
@@ -464,7 +492,12 @@ def oracle_c08(run):
         if set(got) != exp:
             if reg == "clean" and _has_stale_extra(run):
                 reg = "stale-extra-edge"
-            fails.append(("C08/annotation-differs/" + reg, {"pin": k, "printed": got, "expected": sorted(exp)}))
+            # a requirer that is printed but is neither pinned nor an input is a different symptom (an abandoned
+            # requirer shows up) from a wrong or missing entry of a legitimate requirer
+            legit = {names.get(e, e) for e in S.emitted} | {c.name for c in S.ins + S.cons}
+            ghosts = sorted({g.split(" ")[0].split("[")[0] for g in got} - legit)
+            sym = "annotation-names-abandoned-requirer" if ghosts else "annotation-differs"
+            fails.append(("C08/%s/%s" % (sym, reg), {"pin": k, "printed": got, "expected": sorted(exp), "not_in_solution": ghosts}))
     return fails
 
 
